@@ -132,10 +132,36 @@ fn reply_stream_sep(ids: &[u64], bodies: &[Vec<String>], sep: &str) -> SymStream
     let mut s = SymStream::new();
     for (k, body) in bodies.iter().enumerate() {
         let id = ids.get(k).copied().unwrap_or(0);
+        if body.first().is_some_and(|b| b.starts_with("<error-")) {
+            // a negative reply: the symbols of the body are the children of its <rpc-error>, so that a cut or the end of
+            // the stream can fall between any two of them
+            let p = format!("{sep}<rpc-reply message-id=\"{id}\" xmlns=\"{BASE_NS}\"><rpc-error>");
+            s.push_msg(&p, body, "</rpc-error></rpc-reply>");
+            continue;
+        }
         let p = format!("{sep}<rpc-reply message-id=\"{id}\" xmlns=\"{BASE_NS}\"><data><!--");
         s.push_msg(&p, body, "--></data></rpc-reply>");
     }
     s
+}
+
+/// the value a request evaluates to, as the symbols of the body the peer wrote for it: the data of a positive reply,
+/// the children of the <rpc-error> of a negative one (which the library hands over as an error value)
+fn outcome_of(case: &Value, k: usize, r: Result<String, netconf::Error>) -> Value {
+    match r {
+        Ok(o) => json!({"out": "ok", "body": body_syms(&o)}),
+        Err(netconf::Error::RpcError(errs)) => {
+            let want = bodies_of(&case["bodies"]).get(k).cloned().unwrap_or_default();
+            let text = format!("{errs:?}");
+            // delivered if it is the error the peer wrote (type, tag, severity, message)
+            if want.first().is_some_and(|b| b.starts_with("<error-")) && text.contains("OperationFailed") && text.contains("the-message") {
+                json!({"out": "ok", "body": want})
+            } else {
+                json!({"out": "err", "err": "rpc-error", "detail": text.chars().take(100).collect::<String>()})
+            }
+        }
+        Err(e) => json!({"out": "err", "err": err_class(&e), "detail": e.to_string().chars().take(100).collect::<String>()}),
+    }
 }
 
 fn usizes(v: &Value) -> Vec<usize> {
@@ -796,8 +822,7 @@ async fn drive_session<T: netconf::transport::Transport>(
                         hung = true;
                         results.push(json!({"out": "timeout"}));
                     }
-                    Ok(Ok(o)) => results.push(json!({"out": "ok", "body": body_syms(&o.to_string())})),
-                    Ok(Err(e)) => results.push(json!({"out": "err", "err": err_class(&e), "detail": e.to_string().chars().take(100).collect::<String>()})),
+                    Ok(r) => results.push(outcome_of(case, i, r.map(|o| o.to_string()))),
                 }
             }
         }
